@@ -76,7 +76,7 @@ func goid() int64 {
 	return id
 }
 
-var envActions = map[string]bool{"run": true, "stop": true, "dial": true, "close": true, "send": true, "release": true, "panic": true, "reset": true, "hold_onclose": true, "release_onclose": true, "sendpartial": true, "stopreading": true, "probe": true, "sleep": true}
+var envActions = map[string]bool{"run": true, "stop": true, "dial": true, "close": true, "send": true, "release": true, "panic": true, "reset": true, "hold_onclose": true, "release_onclose": true, "sendpartial": true, "stopreading": true, "probe": true, "sleep": true, "timeout": true}
 
 type framePlan struct {
 	c     string
@@ -104,6 +104,7 @@ type sClient struct {
 	tap         *tapConn
 	kind        string
 	readGate    chan struct{}
+	dialAt      time.Time // when the dial was started (the server arms the read deadline of WithReadTimeout at accept time)
 }
 
 type runner struct {
@@ -133,6 +134,7 @@ type runner struct {
 	ended                 bool
 	gates                 map[string]int
 	gateHook              func(point string, ids ...int)
+	readTimeout           time.Duration
 	extraConns            int
 }
 
@@ -605,7 +607,7 @@ func (r *runner) step(e sEvent) {
 		r.mu.Lock()
 		idx := len(r.clients) + 1
 		// registered before dialling: the server may already close (and report) the connection while we dial
-		pre := &sClient{tag: e.C, idx: idx, done: make(chan struct{}), readGate: make(chan struct{}), parked: make(chan struct{})}
+		pre := &sClient{tag: e.C, idx: idx, done: make(chan struct{}), readGate: make(chan struct{}), parked: make(chan struct{}), dialAt: time.Now()}
 		r.clients[e.C] = pre
 		r.mu.Unlock()
 		var conn *lx.Conn
@@ -724,6 +726,22 @@ func (r *runner) step(e sEvent) {
 		n := len(r.clients) + r.extraConns
 		r.mu.Unlock()
 		r.waitGate("run.registered", n)
+	case "timeout":
+		// the read deadline of this connection (armed when it was accepted) expires: wait for it.  Everything before this
+		// step must have happened well before the deadline, or the scenario is out of step with the model ("desync")
+		r.mu.Lock()
+		cl := r.clients[e.C]
+		r.mu.Unlock()
+		if cl == nil || r.readTimeout == 0 {
+			return
+		}
+		if time.Since(cl.dialAt) > r.readTimeout-r.readTimeout/4 {
+			r.emit(tEvent{Ev: "desync", C: e.C, Val: "the steps before the timeout took too long"})
+		}
+		r.emit(tEvent{Ev: "timeout", C: e.C})
+		if d := time.Until(cl.dialAt.Add(r.readTimeout)); d > 0 {
+			time.Sleep(d)
+		}
 	case "sleep":
 		// time passes on an idle session (harness-only: the model has no notion of time)
 		r.emit(tEvent{Ev: "sleep", N: e.I})
@@ -859,6 +877,12 @@ func runScenario(sc *sScenario, out *hx.Out, seed int64, tlsSrv, tlsCli *tls.Con
 	sopts := []gldap.Option{gldap.WithLogger(hx.NullLogger()), gldap.WithOnClose(r.onClose)}
 	if sc.Cfg["recover"] == "0" {
 		sopts = append(sopts, gldap.WithDisablePanicRecovery())
+	}
+	if ms := sc.Cfg["read_timeout_ms"]; ms != "" {
+		var n int
+		fmt.Sscan(ms, &n)
+		r.readTimeout = time.Duration(n) * time.Millisecond
+		sopts = append(sopts, gldap.WithReadTimeout(r.readTimeout))
 	}
 	srv, err := gldap.NewServer(sopts...)
 	if err != nil {
